@@ -322,6 +322,8 @@ class Sim(object):
                 self._complete(res, move)
             elif op == "hold":
                 self._hold(res, move)
+            elif op == "interim":
+                self._interim(res, move)
             elif op == "release":
                 self._release(res, move)
             elif op == "req":
@@ -455,6 +457,8 @@ class Sim(object):
         result = self.result_value(a[0], rspec)
         ev = self._event_for(a, status, result)
         del infl[idx]
+        if self.h.get("interim"):
+            self.h["interim"] = [x for x in self.h["interim"] if x[:3] != list(a)]
         self.h["nexec"][a[0]] = self.h["nexec"].get(a[0], 0) + 1
         self.h["need_dispatch"] = True
         res.extra["action"] = list(a)
@@ -463,6 +467,25 @@ class Sim(object):
         res.calls += 1
         res.ret = self.c.update_task_state(a[0], a[1], ev)
         res.ret = None
+
+    def _interim(self, res, move):
+        """An in-flight action reports an intermediate status (pausing / canceling); it stays in flight."""
+        idx, status = move[1], move[2]
+        infl = self.h["inflight"]
+        if idx >= len(infl):
+            raise HarnessError("interim: no in-flight action #%d" % idx)
+        a = infl[idx]
+        if len(move) > 3 and move[3] is not None and list(move[3]) != list(a):
+            raise HarnessError("replay divergence: in-flight #%d is %r, history says %r" % (idx, a, move[3]))
+        ev = self._event_for(a, status, None)
+        self.h["need_dispatch"] = True
+        self.h.setdefault("interim", [])
+        if list(a) + [status] not in self.h["interim"]:
+            self.h["interim"] = sorted(self.h["interim"] + [list(a) + [status]], key=repr)
+        res.extra["action"] = list(a)
+        res.extra["status"] = status
+        res.calls += 1
+        self.c.update_task_state(a[0], a[1], ev)
 
     def _hold(self, res, move):
         idx = move[1]
@@ -506,6 +529,9 @@ class Sim(object):
             self.h["pause_req"] = True
         if status in (st.RUNNING, st.RESUMING) and before in (st.PAUSING, st.PAUSED):
             self.h["pause_req"] = False
+            if before == st.PAUSING and any(a[2] is not None for a in self.h["inflight"]):
+                # feature for known finding F11 (classification only)
+                self.h["resumed_while_pausing_items"] = True
         if status in (st.CANCELING, st.CANCELED) and after in (st.CANCELING, st.CANCELED):
             self.h["cancel_req"] = True
             self.h["pause_req"] = False
